@@ -376,3 +376,17 @@ def descriptor_binding(ctx, rid: str, modules) -> None:
                       f"`{inst}` is only compared by identity" if not bad else
                       f"`{norm(bad[0])}` tests the truth value / equality of the instance: a falsy instance is served the unbound descriptor",
                       line=getattr(bad[0], "lineno", None) if bad else None)
+
+
+def keywords_cannot_collide(ctx, rid: str, unit, whose: str) -> None:
+    """A function that passes ``**kwargs`` on to a callable of the user takes every parameter of its own positional-only:
+    otherwise a keyword argument meant for the user's callable that happens to have the name of such a parameter
+    (``func=``, ``callback=``, ``self=``) is rejected with TypeError (multiple values) before anything runs."""
+    a = unit.node.args
+    if a.kwarg is None:
+        ctx.ok(rid, unit, f"{unit.node.name} takes no **kwargs")
+        return
+    named = [p.arg for p in a.args] + [p.arg for p in a.kwonlyargs]
+    ctx.check(not named, rid, unit, unit.node.name,
+              f"every parameter of {unit.node.name} other than *args / **kwargs is positional-only: a keyword argument for {whose} "
+              "may have any name", witness=f"can be passed by keyword (and so collide): {named}")
